@@ -323,6 +323,17 @@ func check(s *codecx.Schema, c setCase) (fails []vf.Failure, built int) {
 		if b64, ok := c.Msgs[string(md.FullName())]; ok {
 			m := dynamicpb.NewMessage(md)
 			if raw, err := codecx.B64(b64); err == nil && (proto.UnmarshalOptions{Resolver: s.Types}).Unmarshal(raw, m) == nil {
+				// a message type may be declared a oneof by annotation alone
+				// ((j5.ext.v1.message).oneof on plain fields): an instance of the
+				// reflected type has at most one member set, at every level
+				pruneOneofs(m, func(md protoreflect.MessageDescriptor) bool {
+					var rs j5schema.RootSchema
+					if f := vf.GuardTimed("SchemaCache.Schema", callLimit, func() { rs, _ = cache.Schema(md) }); f != nil {
+						return false
+					}
+					_, isOneof := rs.(*j5schema.OneofSchema)
+					return isOneof
+				}, s.Types, 0)
 				msgs = append(msgs, m)
 			}
 		}
@@ -352,6 +363,76 @@ func check(s *codecx.Schema, c setCase) (fails []vf.Failure, built int) {
 		}
 	}
 	return dedupe(fails), built
+}
+
+// pruneOneofs clears all but the first populated field of every message whose
+// reflected schema is a oneof.
+func pruneOneofs(m protoreflect.Message, isOneof func(protoreflect.MessageDescriptor) bool, types *dynamicpb.Types, depth int) {
+	if depth > 40 {
+		return
+	}
+	// the payload of an Any is a message of a reflected type too
+	if full := m.Descriptor().FullName(); full == "google.protobuf.Any" || full == "j5.types.any.v1.Any" {
+		nameField, valueField := "type_url", "value"
+		if full == "j5.types.any.v1.Any" {
+			nameField, valueField = "type_name", "proto"
+		}
+		nf, vf2 := m.Descriptor().Fields().ByName(protoreflect.Name(nameField)), m.Descriptor().Fields().ByName(protoreflect.Name(valueField))
+		if nf == nil || vf2 == nil {
+			return
+		}
+		name := m.Get(nf).String()
+		if i := strings.LastIndex(name, "/"); i >= 0 {
+			name = name[i+1:]
+		}
+		mt, err := types.FindMessageByName(protoreflect.FullName(name))
+		if err != nil {
+			return
+		}
+		inner := mt.New()
+		if (proto.UnmarshalOptions{Resolver: types}).Unmarshal(m.Get(vf2).Bytes(), inner.Interface()) != nil {
+			return
+		}
+		pruneOneofs(inner, isOneof, types, depth+1)
+		if b, err := (proto.MarshalOptions{Deterministic: true}).Marshal(inner.Interface()); err == nil {
+			m.Set(vf2, protoreflect.ValueOfBytes(b))
+		}
+		return
+	}
+	if isOneof(m.Descriptor()) {
+		first := true
+		fields := m.Descriptor().Fields()
+		for i := 0; i < fields.Len(); i++ {
+			fd := fields.Get(i)
+			if !m.Has(fd) {
+				continue
+			}
+			if !first {
+				m.Clear(fd)
+			}
+			first = false
+		}
+	}
+	m.Range(func(fd protoreflect.FieldDescriptor, v protoreflect.Value) bool {
+		switch {
+		case fd.IsMap():
+			if fd.MapValue().Kind() == protoreflect.MessageKind {
+				v.Map().Range(func(_ protoreflect.MapKey, mv protoreflect.Value) bool {
+					pruneOneofs(mv.Message(), isOneof, types, depth+1)
+					return true
+				})
+			}
+		case fd.IsList():
+			if fd.Kind() == protoreflect.MessageKind {
+				for i := 0; i < v.List().Len(); i++ {
+					pruneOneofs(v.List().Get(i).Message(), isOneof, types, depth+1)
+				}
+			}
+		case fd.Kind() == protoreflect.MessageKind:
+			pruneOneofs(v.Message(), isOneof, types, depth+1)
+		}
+		return true
+	})
 }
 
 func dedupe(fails []vf.Failure) []vf.Failure {
